@@ -143,7 +143,7 @@ def gen_cases(ctx):
     g = Gen(rng)
     cases = []
     for c in replay_cases(ctx):
-        if "cfg" in c and "steps" in c:
+        if "cfg" in c and "steps" in c and "lv" not in c and "live" in c:      # ("lv": a history of the liveness-stack lane)
             cases.append({"cfg": c["cfg"], "live": c["live"], "steps": c["steps"], "row": c.get("row", {}), "kind": "replay"})
     # 1. bases and single flips (the rows that differ in exactly one condition)
     for b in BASES:
